@@ -277,6 +277,98 @@ example : (run ⟨100, none⟩ (init 0) [.recv 50, .tick 120, .recv 200, .tick 3
 example : (run ⟨100, some 1⟩ (init 0) [.tick 101, .recv 150, .tick 251, .tick 252]).2
     = [.ping 1, .cancelPing 1, .ping 2, .cancelPing 2, .close] := by decide
 
+/-! ### servers: the per-connection theorems apply to every accepted connection -/
+
+theorem modifyAt_length (f : St → St) (i : Nat) (ss : List St) : (modifyAt f i ss).length = ss.length := by
+  induction ss generalizing i with
+  | nil => simp [modifyAt]
+  | cons s r ih => cases i <;> simp [modifyAt, ih]
+
+theorem modifyAt_get (f : St → St) (i j : Nat) (ss : List St) :
+    (modifyAt f i ss)[j]? = if j = i then ss[j]?.map f else ss[j]? := by
+  induction ss generalizing i j with
+  | nil => simp [modifyAt]
+  | cons s r ih =>
+    cases i with
+    | zero => cases j <;> simp [modifyAt]
+    | succ i =>
+      cases j with
+      | zero => simp [modifyAt]
+      | succ j => simp [modifyAt, ih]
+
+theorem run_fst_append (cfg : Cfg) (s : St) (a b : List Ev) :
+    (run cfg s (a ++ b)).1 = (run cfg (run cfg s a).1 b).1 := by
+  rw [run_append]
+
+theorem run_single (cfg : Cfg) (s : St) (e : Ev) : (run cfg s [e]).1 = (step cfg s e).1 := by
+  simp [run]
+
+/-- One server step, seen from connection `i`: it is the run of what `i` sees of the event. -/
+theorem srvStep_proj (cfg : Cfg) (ss : List St) (ev : SrvEv) (i : Nat) :
+    (srvStep cfg ss ev)[i]? = ss[i]?.map (fun s => (run cfg s (projEv i ev)).1) := by
+  cases ev with
+  | conn j e =>
+    simp only [srvStep, projEv, modifyAt_get]
+    by_cases h : i = j
+    · subst h; simp [run_single]
+    · have h' : ¬ j = i := fun x => h x.symm
+      simp [h, h', run]
+  | tickAll t => simp [srvStep, projEv, run_single]
+
+/-- **Refinement.** Whatever happens on the other connections of a server and however the server's ticks interleave with
+    them, the monitor state of the `i`-th accepted connection is the state the single-connection model reaches on what
+    that connection saw: its own messages and every server tick.  All single-connection theorems above therefore hold
+    for every connection of a server. -/
+theorem server_conn_is_single_conn (cfg : Cfg) (evs : List SrvEv) : ∀ (ss : List St) (i : Nat),
+    (srvRun cfg ss evs)[i]? = ss[i]?.map (fun s => (run cfg s (proj i evs)).1) := by
+  induction evs with
+  | nil => intro ss i; simp [srvRun, proj, run]
+  | cons ev r ih =>
+    intro ss i
+    have h := ih (srvStep cfg ss ev) i
+    simp only [srvRun, List.foldl_cons] at h ⊢
+    rw [h, srvStep_proj]
+    cases hs : ss[i]? with
+    | none => simp
+    | some s =>
+      simp only [Option.map_some, proj, List.flatMap_cons]
+      rw [run_fst_append]
+
+/-- the number of connections is not changed by events -/
+theorem srvRun_length (cfg : Cfg) (evs : List SrvEv) : ∀ ss : List St, (srvRun cfg ss evs).length = ss.length := by
+  induction evs with
+  | nil => intro ss; simp [srvRun]
+  | cons ev r ih =>
+    intro ss
+    have := ih (srvStep cfg ss ev)
+    simp only [srvRun, List.foldl_cons] at this ⊢
+    rw [this]
+    cases ev <;> simp [srvStep, modifyAt_length]
+
+/-- Consequence used by the server-level runs: a connection that is heard from right before every tick - at a time no
+    earlier than `period` before it - is not closed by that tick. -/
+theorem talkative_survives_tick (cfg : Cfg) (s : St) (t : Int) (hp : 0 ≤ cfg.period) :
+    ((run cfg s [.recv t, .tick t]).1).closed = s.closed := by
+  by_cases hc : s.closed = true
+  · simp [run, step, hc]
+  · have hc' : s.closed = false := by simpa using hc
+    have : ¬ t > t + cfg.period := by omega
+    simp only [run, step, hc', notify, check]
+    by_cases h0 : cfg.period = 0
+    · simp [h0, hc']
+    · by_cases hf : fireStrict = true
+      · simp [h0, hf, this, hc']
+      · -- non-strict firing (`≥`) closes a connection heard from at the very instant of the tick only if period = 0
+        have hf' : fireStrict = false := by simpa using hf
+        have : ¬ t ≥ t + cfg.period := by omega
+        simp [h0, hf', this, hc']
+
+-- three connections; the second one is silent, the third one is heard from before every tick: only the silent one is closed
+example : ((srvRun ⟨100, none⟩ [init 0, init 0, init 0]
+      [.conn 0 (.recv 50), .conn 2 (.recv 120), .tickAll 120, .conn 2 (.recv 240), .tickAll 240]).map (·.closed))
+    = [true, true, false] := by decide
+example : proj 0 [.conn 0 (.recv 50), .conn 2 (.recv 120), .tickAll 120] = [.recv 50, .tick 120] := by decide
+
 end CoapVerif.Props.C18
 
 section Audit
@@ -297,4 +389,12 @@ open CoapVerif.Props.C18
 #print axioms late_pong_not_credited
 #print axioms pending_is_newest
 #print axioms datagram_close_bound_partial
+#print axioms modifyAt_length
+#print axioms modifyAt_get
+#print axioms run_fst_append
+#print axioms run_single
+#print axioms srvStep_proj
+#print axioms server_conn_is_single_conn
+#print axioms srvRun_length
+#print axioms talkative_survives_tick
 end Audit
